@@ -195,6 +195,29 @@ func runC19(r *rt.Runner) {
 				g.ClosePath()
 				o.f("glyph with an extremal end point at the origin")
 			}
+			if rng.IntN(5) == 0 {
+				// a glyph (or all of them) far away from the origin, beyond the
+				// range of 16-bit font units on one side
+				dx := []float64{0, 40000, -40000, 32768, -32769, 70000, 1e6, -2.5e6}[rng.IntN(8)]
+				dy := []float64{0, 40000, -40000, 32768, -32769, -70000, 1e6}[rng.IntN(7)]
+				which := names[rng.IntN(len(names))]
+				all := rng.IntN(3) == 0
+				for _, nme := range names {
+					if !all && nme != which {
+						continue
+					}
+					for _, cmd := range f.Glyphs[nme].Cmds {
+						for i := range cmd.Args {
+							if i%2 == 0 {
+								cmd.Args[i] += dx
+							} else {
+								cmd.Args[i] += dy
+							}
+						}
+					}
+				}
+				o.f("glyph beyond the 16-bit coordinate range")
+			}
 			c.SetDetail(func() string { return describeFont(f) })
 			glyphs := map[string]bool{}
 			for _, nme := range names {
